@@ -270,6 +270,13 @@ def m_vec_extend(ex, a, callee, canon):
     v = p.get()
     if isinstance(v, Bytes):
         src = a[1]
+        if isinstance(src, BytesIter):
+            p.set(Bytes(seq_concat(v.s, src.s)))
+            return UNIT
+        if isinstance(src, IterV):
+            p.set(Bytes(seq_concat(v.s, seq_of([deref(x).t for x in src.items[src.i:]]))))
+            src.i = len(src.items)
+            return UNIT
         p.set(Bytes(seq_concat(v.s, ex.bytes_of(src))))
         if canon.endswith("append") and isinstance(src, Ptr):
             src.set(Bytes(z3.Empty(SEQ)))
@@ -496,6 +503,13 @@ def m_to_primitive(ex, a, callee, canon):
 
 
 # ------------------------------------------------------------------ iterators
+class BytesIter:
+    """iterator over all bytes of an opaque byte string (symbolic length); consumed as a whole"""
+
+    def __init__(self, s):
+        self.s = s
+
+
 class IterV:
     """slice::Iter / IterMut / vec::IntoIter over a ListV or Arr"""
 
@@ -523,6 +537,9 @@ def iter_next(ex, it):
         if it.kind == "map":
             x = iter_next(ex, it.inner)
             return None if x is None else ex.call_closure(it.clo, [x])
+        if it.kind == "chain":
+            x = iter_next(ex, it.inner)
+            return x if x is not None else iter_next(ex, it.other)
         if it.kind == "zip":
             x = iter_next(ex, it.inner)
             if x is None:
@@ -581,6 +598,7 @@ def m_slice_iter(ex, a, callee, canon):
         items = ex.seq_items(v.s)
         if items is not None:
             return IterV([Int(t, "u8") for t in items], True)
+        return BytesIter(v.s)      # byte string of symbolic length: only whole-string consumers (extend, collect, copied/cloned) are modelled
     raise Unsupported(f"iter over {v!r}")
 
 
@@ -616,6 +634,13 @@ def m_iter_adapt(ex, a, callee, canon):
     return AdaptV(canon.rsplit("::", 1)[1], a[0], a[1])
 
 
+@model(r"^<.* as Iterator>::chain$")
+def m_chain(ex, a, callee, canon):
+    z = AdaptV("chain", a[0], None)
+    z.other = a[1]
+    return z
+
+
 @model(r"^<.* as Iterator>::zip$")
 def m_zip(ex, a, callee, canon):
     z = AdaptV("zip", a[0], None)
@@ -648,9 +673,35 @@ def m_find_map(ex, a, callee, canon):
             return r
 
 
+@model(r"^<.* as Iterator>::(copied|cloned)$")
+def m_iter_copied(ex, a, callee, canon):
+    it = a[0]
+    if isinstance(it, BytesIter):
+        return it
+    if isinstance(it, IterV):
+        return IterV([deref(x) for x in it.items[it.i:]], False)
+    raise Unsupported(f"copied/cloned on {it!r}")
+
+
 @model(r"^<.* as Iterator>::collect$")
 def m_collect(ex, a, callee, canon):
     it = a[0]
+    if isinstance(it, BytesIter):
+        return Bytes(it.s)
+    if isinstance(it, AdaptV) and it.kind == "chain":
+        def whole(x):
+            if isinstance(x, BytesIter):
+                return x.s
+            if isinstance(x, IterV):
+                r = seq_of([deref(e).t for e in x.items[x.i:]])
+                x.i = len(x.items)
+                return r
+            if isinstance(x, AdaptV) and x.kind == "chain":
+                return seq_concat(whole(x.inner), whole(x.other))
+            return None
+        parts = [whole(it.inner), whole(it.other)]
+        if all(p_ is not None for p_ in parts):
+            return Bytes(seq_concat(*parts))
     target = generic_arg(callee, len(re.findall(r"::<", callee)) - 1) or ""
     target = target.replace("std::vec::", "").replace(" ", "")
     flat = isinstance(it, AdaptV) and it.kind == "flat_map"
@@ -678,6 +729,18 @@ def m_collect(ex, a, callee, canon):
         return Bytes(seq_of([i.t for i in items]))
     if target.startswith("Vec<"):
         return ListV(items)
+    if target.startswith("Result<Vec<") or target.startswith("Option<Vec<"):
+        # short-circuiting collect: the first Err / None is the result
+        good = "Ok" if target.startswith("Result") else "Some"
+        out = []
+        for x in items:
+            x = deref(x) if isinstance(x, Ptr) else x
+            if x.variant != good:
+                return x
+            out.append(x.f[0])
+        inner = target[len("Result<"):] if good == "Ok" else target[len("Option<"):]
+        payload = Bytes(seq_of([i.t for i in out])) if inner.startswith("Vec<u8>") else ListV(out)
+        return Enum("Result" if good == "Ok" else "Option", good, 0 if good == "Ok" else 1, [payload])
     raise Unsupported("collect into " + target)
 
 
@@ -959,7 +1022,7 @@ def range_bounds(ex, r, n):
     return lo, hi
 
 
-@model(r"^<\[u8\] as Index(Mut)?<Range(From|To|Full)?<usize>>>::index(_mut)?$|^<Vec<u8> as Index(Mut)?<Range(From|To|Full)?<usize>>>::index(_mut)?$|^core::slice::index::<impl Index<Range(From|To)?<usize>> for \[u8\]>::index$")
+@model(r"^<\[u8\] as Index(Mut)?<Range(From|To|Full)?(<usize>)?>>::index(_mut)?$|^<Vec<u8> as Index(Mut)?<Range(From|To|Full)?(<usize>)?>>::index(_mut)?$|^core::slice::index::<impl Index<Range(From|To)?<usize>> for \[u8\]>::index$|^<\[u8; \d+\] as Index(Mut)?<Range(From|To|Full)?(<usize>)?>>::index(_mut)?$")
 def m_index_range(ex, a, callee, canon):
     v = deref(a[0])
     s = ex.bytes_of(v)
@@ -1587,3 +1650,12 @@ def m_slice_contains(ex, a, callee, canon):
         raise Unsupported("contains on a byte string of symbolic length")
     v = deref(a[1])
     return Bool(z3.Or(*[p == v.t for p in x]) if x else z3.BoolVal(False))
+
+
+
+@model(r"^(std|alloc)::slice::<impl \[&\[u8\]\]>::concat$|^(std|alloc)::slice::<impl \[Vec<u8>\]>::concat$|^<\[&\[u8\]\] as (std::slice::|alloc::slice::)?Concat<u8>>::concat$")
+def m_slices_concat(ex, a, callee, canon):
+    v = deref(a[0])
+    if not isinstance(v, (ListV, Arr)):
+        raise Unsupported(f"concat on {v!r}")
+    return Bytes(seq_concat(*[ex.bytes_of(x) for x in v.f]) if v.f else z3.Empty(SEQ))
